@@ -160,10 +160,36 @@ PROPS["C45"] = dict(
     note="Trusted: TLC, Json module, hook placement, runtime.Stack based handler-leak detection.")
 
 
+# ---------------------------------------------------------------------------------- bundle (C46)
+def corrupt_bundle(lines, pid):
+    for e in lines:
+        if e.get("ev") == "return" and e["replaced"] and 1 in e["replaced"]:
+            k = e["replaced"].index(1)
+            e["replaced"][k] = 0
+            return "one replaced occurrence reported as not replaced"
+    return None
+
+
+FAMILIES["bundle"] = dict(vdrive="bundle", trace_module="TraceImgBundle", trace_cfg="TraceImgBundle.cfg", corrupt=corrupt_bundle, engine="TraceImgBundle")
+PROPS["C46"] = dict(
+    family="bundle", level="model_checking", design_ref="4.2",
+    technique="TLA+ model of the worker pool (semaphore, unbuffered rendezvous channel, closer goroutine) checked by TLC for every interleaving and failure subset (Outcome, NoEarlyReturn, Terminates); the real BundleRemote/BundleLocal driven through every completion order x failure subset for small n (gated HTTP handlers / FIFOs) and judged by TLC",
+    base=dict(quick=[dict(module="ImgBundle", cfg="ImgBundle_quick.cfg")], thorough=[dict(module="ImgBundle", cfg="ImgBundle_quick.cfg"), dict(module="ImgBundle", cfg="ImgBundle_thorough.cfg")]),
+    rule="every completion order x every failing subset of n unique remote images for n <= 3 (quick) / n <= 4 (thorough), the same for local files behind FIFOs for n <= 2 / 3, plus seeded random orders for 5-24 images "
+         "(more than the 16 worker slots); SVG layouts rotate over plain, duplicate references, hrefs that are prefixes of each other, HTML-escaped hrefs, mixed local/remote/data hrefs, one content under two hrefs. Non-trivial: n >= 2.",
+    exhaustive=dict(quick=True, thorough=True),
+    assumptions=["completion order is imposed by releasing the fetches one by one with 1.5 ms gaps; the rendezvous order normally follows it",
+                 "the bundler's 5-minute context and HTTP retry/size limits are outside the model",
+                 "bytes outside the <image href=\"...\"> tokens are compared segment by segment with the input"],
+    text="TLC shows the outcome is a function of the failing set only, over all interleavings; the real bundler is run for all orders x failure subsets within the bound and each outcome is compared by TLC with that function.",
+    note="Trusted: TLC, Json module, the harness HTTP server/FIFO gating and the occurrence-by-occurrence output comparison.")
+
+
 # ------------------------------------------------------------------------------- manifest data
 HOOK_COMMITS = ["9d004ebd4", "879b5d739"]
 
 ENGINES = {
+    "TraceImgBundle": dict(path="specs/ImgBundle.tla, specs/TraceImgBundle.tla", kind="TLA+ model of imgbundler.runWorkers (TLC, all interleavings x failure subsets) + TLC validation of real runs with imposed completion orders"),
     "TraceD2Watch": dict(path="specs/D2Watch.tla, specs/TraceD2Watch.tla", kind="TLA+ model of d2 --watch concurrency (TLC safety+liveness) + TLC trace validation of hook traces of the real watcher (D2Watch instantiated over the replayed state)"),
     "TraceFSWrite": dict(path="specs/FSOps.tla, specs/FSWrite.tla, specs/BoardPaths.tla, specs/TraceFSWrite.tla", kind="TLA+ POSIX file-system model + write protocols with Crash (TLC), board-to-file path derivation (TLC), TLC validation of strace-recorded system calls of the real d2 binary"),
     "TraceD2Anim": dict(path="specs/D2Anim.tla, specs/AnimOps.tla, specs/TraceD2Anim.tla", kind="TLA+ clock model of the animated SVG cycle (TLC, safety+liveness) + TLC trace validation of the key frames emitted by d2animate.Wrap"),
